@@ -804,19 +804,20 @@ func (b *BaseStore) Load(ctx context.Context, amount int) error {
 
 	wg.Wait()
 
+	// Update the index: also when the load of a head failed or was
+	// interrupted, for what the other heads have brought is in the log
+	if len(heads) > 0 {
+		span.AddEvent("store-index-updating")
+		if indexErr := b.updateIndex(ctx); indexErr != nil && err == nil {
+			span.AddEvent("store-index-updating-error", trace.WithAttributes(otkv.String("error", indexErr.Error())))
+			return fmt.Errorf("unable to update index: %w", indexErr)
+		}
+		span.AddEvent("store-index-updated")
+	}
+
 	if err != nil {
 		span.AddEvent("store-handling-head-error", trace.WithAttributes(otkv.String("error", err.Error())))
 		return err
-	}
-
-	// Update the index
-	if len(heads) > 0 {
-		span.AddEvent("store-index-updating")
-		if err := b.updateIndex(ctx); err != nil {
-			span.AddEvent("store-index-updating-error", trace.WithAttributes(otkv.String("error", err.Error())))
-			return fmt.Errorf("unable to update index: %w", err)
-		}
-		span.AddEvent("store-index-updated")
 	}
 
 	if err := b.emitters.evtReady.Emit(stores.NewEventReady(b.Address(), b.OpLog().Heads().Slice())); err != nil {
